@@ -24,6 +24,10 @@ pub enum Op {
     Pop(Option<Vec<String>>),
     /// a command invoked without its mandatory argument
     Missing(String),
+    /// the embedder clones the context (as `Context::clone` does) and keeps the copy aside
+    Fork,
+    /// ... and later continues on the other copy
+    Swap,
 }
 
 #[derive(Serialize, Deserialize, Clone, Debug, PartialEq)]
@@ -67,7 +71,11 @@ fn gen_op(rng: &mut Rng) -> Op {
         12 => Op::ClearScope(rng.pick(&["p", "a", "q", "p::x", "ap", ""]).to_string()),
         13 | 14 | 15 => Op::Push(if rng.chance(2, 3) { Some(gen_names(rng)) } else { None }),
         16 | 17 | 18 => Op::Pop(if rng.chance(2, 3) { Some(gen_names(rng)) } else { None }),
-        _ => Op::Missing(rng.pick(&["set_by_name", "get_by_name", "is_defined", "clear_scope"]).to_string()),
+        _ => match rng.below(4) {
+            0 => Op::Fork,
+            1 | 2 => Op::Swap,
+            _ => Op::Missing(rng.pick(&["set_by_name", "get_by_name", "is_defined", "clear_scope"]).to_string()),
+        },
     }
 }
 
@@ -94,6 +102,7 @@ fn run_case(case: &Case) -> Verdict {
     let mut world = OpWorld::new_sdk();
     let mut cur = Frame::default();
     let mut stack: Vec<Frame> = vec![];
+    let mut other: Option<(OpWorld, Frame, Vec<Frame>)> = None;
     for (k, v) in &case.init {
         world.ctx.variables.insert(k.clone(), v.clone());
         cur.vars.insert(k.clone(), v.clone());
@@ -275,6 +284,17 @@ fn run_case(case: &Case) -> Verdict {
                     cur = restored;
                 }
             }
+            Op::Fork => {
+                other = Some((world.fork(), cur.clone(), stack.clone()));
+                sim::with_core(|c| c.probe("context-cloned"));
+            }
+            Op::Swap => {
+                if let Some((w2, c2, s2)) = other.take() {
+                    let old = (std::mem::replace(&mut world, w2), std::mem::replace(&mut cur, c2), std::mem::replace(&mut stack, s2));
+                    other = Some(old);
+                    sim::with_core(|c| c.probe("continued-on-the-other-copy"));
+                }
+            }
             Op::Missing(cmd) => {
                 let got = world.op(cmd, &[], &Want::Any, &[]);
                 let _ = got;
@@ -307,7 +327,7 @@ impl Prop for C11 {
             assumptions: &["thin fault space: sequential refinement; the only nondeterminism is hash order", "values free of $ % \\ (they would be interpreted by argument binding, which is C02's matter)", "success output of push/pop unconstrained (help gives none)"],
             needs_jail: false,
             needs_duck: false,
-            expected_probes: &["pop-on-empty", "push-copy-undefined", "pop-copy-undefined", "copy-same-name-twice", "nesting-depth-5", "prefix-clear-hit-all", "prefix-clear-partial"],
+            expected_probes: &["pop-on-empty", "push-copy-undefined", "pop-copy-undefined", "copy-same-name-twice", "nesting-depth-5", "prefix-clear-hit-all", "prefix-clear-partial", "context-cloned", "continued-on-the-other-copy"],
         }
     }
     fn runs(&self, tier: &str) -> u64 {
@@ -329,7 +349,7 @@ impl Prop for C11 {
             }
             init.push(("longv".to_string(), "abcdefghij".repeat(8)));
             let copy: Vec<String> = (0..12).map(|k| format!("w{}", k)).collect();
-            let depth = 6 + rng.usize(4);
+            let depth = if rng.chance(1, 3) { 65 + rng.usize(70) } else { 6 + rng.usize(4) };
             let mut pre: Vec<Op> = (0..depth).map(|_| Op::Push(Some(copy.clone()))).collect();
             pre.extend(ops.drain(..));
             for _ in 0..depth {
